@@ -333,6 +333,12 @@ def main(argv=None):
         warm("jit")
     cell_timeout = 1800 if a.tier == "quick" else 4 * 3600
     results = run_cells(prop, a.tier, seed, cells, cell_timeout)
+    if os.environ.get("VP_DUMP_CELLS"):      # development: determinism checks
+        import hashlib
+        with open(os.environ["VP_DUMP_CELLS"], "w") as fh:
+            for r in sorted(results, key=lambda r: str(r.get("cell"))):
+                fh.write("%s %s %s %s\n" % (r.get("cell"), r.get("evaluations"), len(r.get("nontrivial", [])),
+                                            hashlib.sha1(",".join(sorted(r.get("nontrivial", []))).encode()).hexdigest()[:10]))
     evidence, violations, known, errors = merge(
         prop, a.tier, seed, mod, cells, results, time.time() - t0)
     if not a.replay and not a.no_evidence and not a.cells:
